@@ -416,6 +416,7 @@ package lisp
 //@   requires arg0 != nil && arg0.Runtime != nil && arg0.Runtime.Stack != nil
 //@   ensures  BAL(arg0)
 //@   ensures  preserved(LEnv.evalCtx)
+//@   ensures  FLAGSBELOW(arg0, old(len(arg0.Runtime.Stack.Frames)) - 1)
 //@   ensures-on-panic BAL(arg0)
 //@   ensures-on-panic preserved(LEnv.evalCtx)
 
@@ -428,6 +429,7 @@ package lisp
 //@   ensures  [balanced] BAL(env)
 //@   ensures  [evalctx-restored] preserved(LEnv.evalCtx)
 //@   nopanic
+//@   ensures  [frames-below-keep-their-flags] FLAGS(env)
 //@   property C05 C04
 
 //@ func (*LEnv).evalSExpr
@@ -436,6 +438,7 @@ package lisp
 //@   ensures  [evalctx-restored] preserved(LEnv.evalCtx)
 //@   ensures-on-panic [balanced-on-panic] BAL(env)
 //@   ensures-on-panic [evalctx-restored-on-panic] preserved(LEnv.evalCtx)
+//@   ensures  [frames-below-keep-their-flags] FLAGS(env)
 //@   property C05
 
 //@ func (*LEnv).evalSExprCells
@@ -449,6 +452,7 @@ package lisp
 //@   ensures-on-panic [balanced-on-panic] BAL(env)
 //@   ensures-on-panic [evalctx-restored-on-panic] preserved(LEnv.evalCtx)
 //@   ensures-on-panic [loc-restored-on-panic] env.loc == old(env.loc)
+//@   ensures  [frames-below-keep-their-flags] FLAGS(env)
 //@   property C05 C18
 
 //@ func (*LEnv).funCall
@@ -459,6 +463,7 @@ package lisp
 //@   ensures  [evalctx-restored] preserved(LEnv.evalCtx)
 //@   ensures-on-panic [balanced-on-panic] BAL(env)
 //@   ensures-on-panic [evalctx-restored-on-panic] preserved(LEnv.evalCtx)
+//@   ensures  [frames-below-keep-their-flags] FLAGS(env)
 //@   property C05 C02
 
 //@ func (*LEnv).specialOpCall
@@ -469,6 +474,7 @@ package lisp
 //@   ensures  [evalctx-restored] preserved(LEnv.evalCtx)
 //@   ensures-on-panic [balanced-on-panic] BAL(env)
 //@   ensures-on-panic [evalctx-restored-on-panic] preserved(LEnv.evalCtx)
+//@   ensures  [frames-below-keep-their-flags] FLAGS(env)
 //@   property C05 C02
 
 //@ func (*LEnv).macroCall
@@ -477,6 +483,7 @@ package lisp
 //@   ensures  [evalctx-restored] preserved(LEnv.evalCtx)
 //@   ensures-on-panic [balanced-on-panic] BAL(env)
 //@   ensures-on-panic [evalctx-restored-on-panic] preserved(LEnv.evalCtx)
+//@   ensures  [frames-below-keep-their-flags] FLAGS(env)
 //@   property C05 C02
 
 //@ func (*LEnv).call
@@ -492,7 +499,13 @@ package lisp
 //@   ensures  [evalctx-restored] preserved(LEnv.evalCtx)
 //@   ensures-on-panic [balanced-on-panic] BAL(env)
 //@   ensures-on-panic [evalctx-restored-on-panic] preserved(LEnv.evalCtx)
-//@   property C05
+//@   requires len(env.Runtime.Stack.Frames) >= 1
+//@   loop 1 (_) invariant [flags-below] FLAGSBELOW(env, old(len(env.Runtime.Stack.Frames)) - 1)
+//@   loop 1 (_) invariant [top-not-terminal] !env.Runtime.Stack.Frames[len(env.Runtime.Stack.Frames)-1].Terminal
+//@   assert-at eval~ret_=_fenv.eval(ctx,_body[i]) [leading-forms-run-with-a-non-terminal-frame] !env.Runtime.Stack.Frames[len(env.Runtime.Stack.Frames)-1].Terminal
+//@   assert-at eval~return_fenv.eval(ctx,_body[len(body)-1]) [last-form-is-terminal-unless-macro] old(fun.FunType) != LFunMacro ==> env.Runtime.Stack.Frames[len(env.Runtime.Stack.Frames)-1].Terminal
+//@   ensures  [frames-below-top-keep-their-flags] FLAGSBELOW(env, old(len(env.Runtime.Stack.Frames)) - 1)
+//@   property C05 C02
 
 //@ frame writers(LEnv.evalCtx) subset { (*LEnv).call, WithContext$1, newEnvN } property C05
 
@@ -646,3 +659,41 @@ package lisp
 //@ frame callers((*LEnv).Bindings) subset { lisp/x/debugger.InspectLocals, lisp/x/debugger.InspectScope, lisp/x/debugger.InspectFunctionLocals } property C10
 //@ frame writers(Runtime.numsym) subset { (*Runtime).gensym } property C10 C07
 //@ frame writers(Runtime.numenv) subset { (*Runtime).getEnvID } property C10
+
+//@ func (mapEntriesByKey).Less
+//@   requires 0 <= i && i < len(m) && 0 <= j && j < len(m) && m[i] != nil && m[j] != nil && len(m[i].Cells) >= 1 && len(m[j].Cells) >= 1 && m[i].Cells[0] != nil && m[j].Cells[0] != nil
+//@   ensures  [orders-by-key-name] result == strlt(m[i].Cells[0].Str, m[j].Cells[0].Str)
+//@   modifies nothing
+//@   property C10 C11
+
+//@ func (mapEntriesByKey).Swap
+//@   requires 0 <= i && i < len(m) && 0 <= j && j < len(m)
+//@   ensures  [swaps] m[i] == old(m[j]) && m[j] == old(m[i])
+//@   ensures  [others-unchanged] forall(k, 0, len(m), k == i || k == j || m[k] == old(m[k]))
+//@   property C10 C11
+
+//@ func (mapEntriesByKey).Len
+//@   ensures  [length] result == len(m)
+//@   modifies nothing
+//@   property C10
+
+// Process-wide state: the only package-level variables written after package
+// initialisation are the host registration tables (an embedder API meant to
+// be called before any runtime is created; not reachable from lisp).
+//@ global-writer lisp.userBuiltins <- RegisterDefaultBuiltin : host registration API (startup), not reachable from evaluation
+//@ global-writer lisp.userMacros <- RegisterDefaultMacro : host registration API (startup), not reachable from evaluation
+//@ global-writer lisp.userSpecialOps <- RegisterDefaultSpecialOp : host registration API (startup), not reachable from evaluation
+//@ frame callers(RegisterDefaultBuiltin) subset { } property C09 C10
+//@ frame callers(RegisterDefaultMacro) subset { } property C09 C10
+//@ frame callers(RegisterDefaultSpecialOp) subset { } property C09 C10
+
+// ---------------------------------------------------------------- C02: terminal-flag discipline
+
+// Frames that existed at entry keep their flags and identity: a callee only
+// ever marks frames it pushed itself (or, for call, the frame its caller
+// pushed for it, which is the top frame at entry).
+//@ pred FLAGSBELOW(env, n) = forall(j, 0, n, env.Runtime.Stack.Frames[j].Terminal == old(env.Runtime.Stack.Frames[j].Terminal) && env.Runtime.Stack.Frames[j].TROBlock == old(env.Runtime.Stack.Frames[j].TROBlock) && env.Runtime.Stack.Frames[j].FID == old(env.Runtime.Stack.Frames[j].FID))
+//@ pred FLAGS(env) = FLAGSBELOW(env, old(len(env.Runtime.Stack.Frames)))
+
+//@ frame writers(CallFrame.Terminal) subset { (*CallStack).Pop, (*CallStack).PushFID, (*LEnv).call, (*LEnv).evalSExprCells, (*LEnv).evalSExprCells$2, builtinApply, builtinFunCall } property C02
+//@ frame writers(CallFrame.TROBlock) subset { (*CallStack).Pop, (*CallStack).PushFID, (*LEnv).macroCall, builtinLoadBytes, builtinLoadFile, builtinLoadString, opHandlerBind, opIgnoreErrors } property C02
